@@ -136,7 +136,8 @@ func Ladder(r *fw.Rand) string {
 		return "&a = b; &b = a; a + 1"
 	case 11:
 		m := []int{998, 999, 1000, 1001, 511, 512, 513, 2000}[r.Intn(8)]
-		return "[" + strings.TrimSuffix(strings.Repeat("1,", m), ",") + "]"
+		el := r.Pick([]string{"1", "[]", "{}", "f", "'s'", "x", "d1", "b0", "`t`", "1"})
+		return "[" + strings.TrimSuffix(strings.Repeat(el+",", m), ",") + "]"
 	case 12:
 		m := []int{4095, 4096, 4097, 5000, 8191, 8192, 8193, 6000}[r.Intn(8)]
 		return strings.TrimSuffix(strings.Repeat("1+", m), "+")
